@@ -545,6 +545,8 @@ func nowFor(nr int, segDur, ts uint64) int {
 // urlPrefix is put in front of scte35_<n>/ in the segment URLs (e.g. "chunkdur_0.5/": chunked
 // low-latency delivery). Set by the callers, which run sequentially.
 var urlPrefix = ""
+var reStartOpt = regexp.MustCompile(`(?:^|/)start_(\d+)/`)
+var reSnrOpt = regexp.MustCompile(`(?:^|/)snr_(\d+)/`)
 
 func fetchSeg(ls *lib.Livesim, a *assetInfo, rep string, n int, nr int, segDur, ts uint64) (segObs, error) {
 	cfg := urlPrefix
@@ -557,7 +559,20 @@ func fetchSeg(ls *lib.Livesim, a *assetInfo, rep string, n int, nr int, segDur, 
 		// chunk is accounted with the nominal chunk duration): ask late enough that nothing sleeps
 		now += int(2 * segDur * 1000 / ts)
 	}
-	url := fmt.Sprintf("/livesim2/%s%s/%s/%d.m4s?nowMS=%d", cfg, a.Name, rep, nr, now)
+	// further URL options in the prefix: availabilityStartTime, start number, $Time$ addressing
+	id := int64(nr)
+	if m := reStartOpt.FindStringSubmatch(urlPrefix); m != nil {
+		s, _ := strconv.ParseInt(m[1], 10, 64)
+		now += int(s * 1000)
+	}
+	if m := reSnrOpt.FindStringSubmatch(urlPrefix); m != nil {
+		s, _ := strconv.ParseInt(m[1], 10, 64)
+		id += s
+	}
+	if strings.Contains(urlPrefix, "segtimeline_1/") {
+		id = int64(nr) * int64(segDur) // segments of equal duration (testpic assets)
+	}
+	url := fmt.Sprintf("/livesim2/%s%s/%s/%d.m4s?nowMS=%d", cfg, a.Name, rep, id, now)
 	r := ls.GetRaw(url)
 	so := segObs{Nr: nr, Status: r.Status}
 	if r.Panic != "" {
@@ -1117,6 +1132,29 @@ func runC13(c *lib.Ctx) error {
 				}
 			}
 		}
+		// scte35 crossed with the options that move the timeline or the addressing: availabilityStartTime
+		// (multiples and non-multiples of 60 s, realistic epoch values), start number, availability time
+		// offset, time-shift buffer depth, SegmentTimeline with $Time$ / $Number$, chunked delivery. The
+		// events belong to the media timeline of the segments (tfdt counts from availabilityStartTime).
+		if !heavy {
+			crossed := []string{"start_86400/", "start_1700000040/", "start_1700000065/", "start_7/snr_5/", "snr_1000/", "tsbd_30/",
+				"start_600/segtimeline_1/", "start_61/snr_3/segtimelinenr_1/", "start_1700000065/chunkdur_0.5/", "ato_1/chunkdur_1/start_3600/", "snr_4000000000/start_90/"}
+			for k := 0; k < 4*scale; k++ {
+				pfx := crossed[rng.Intn(len(crossed))]
+				if k == 0 {
+					pfx = crossed[rng.Intn(3)] // always one plain non-zero start time
+				}
+				n := 1 + rng.Intn(3)
+				urlPrefix = pfx
+				m := 1 + rng.Intn(170)
+				first := int(uint64(m)*60*a.TS/a.SegDur) - 1
+				err := window(a, n, first, perMin+3, "crossed-minute", 4)
+				urlPrefix = ""
+				if err != nil {
+					return err
+				}
+			}
+		}
 		// audio never carries events; video without scte35 carries none
 		if a.AudioRep != "" {
 			for k := 0; k < 6; k++ {
@@ -1340,7 +1378,7 @@ func runC13(c *lib.Ctx) error {
 		r.terms = append(r.terms, fmt.Sprintf("CCfg %d %s %d", idn, optZ(&nn), resp.Status))
 	}
 
-	c.Res.Evaluations = len(r.terms) + oracleSegs - c.Res.Distribution["segment:first-hours"] - c.Res.Distribution["segment:contiguous-minute"] - c.Res.Distribution["segment:far-minute"] - c.Res.Distribution["segment:around-announce"] - c.Res.Distribution["segment:chunked-minute"] - concTerms
+	c.Res.Evaluations = len(r.terms) + oracleSegs - c.Res.Distribution["segment:first-hours"] - c.Res.Distribution["segment:contiguous-minute"] - c.Res.Distribution["segment:far-minute"] - c.Res.Distribution["segment:around-announce"] - c.Res.Distribution["segment:chunked-minute"] - c.Res.Distribution["segment:crossed-minute"] - concTerms
 	c.Res.ModelCases = len(r.terms)
 	c.Res.DistinctNontrivial = len(r.distinct)
 	c.Res.Rule = fmt.Sprintf("direct CreateEmsgAhead calls (start/end exactly on, one tick before/after every announce instant; segments straddling a minute; random; PTS and id wrap; other N; inverted/long segments; timescale 0; uint64 wrap), direct CreateSpliceInsertPayload calls with random parameters, and video segments served by the in-process server for testpic_2s/6s/8s and the 29.97 fps WAVE asset with scte35_1/2/3: every segment of the first 3 h (10 h in the thorough tier; WAVE: sampled minutes) plus single minutes around multiples of 2^33/90000 s and up to ~57 years from the epoch (%d s of stream fetched and checked by the oracle; of the first hours the model replays a random 1/8 of the segments with an event or next to an announce instant and 1/60 of the rest, of the other windows all of the former and 1/10 of the latter; latest minute below 200000 s ends at %d s); audio segments, scte35 off, MPDs, rejected N. distinct = distinct inputs; non-trivial = an event (emsg) was produced", streamSeconds, maxSecond)
